@@ -24,7 +24,7 @@ EXPLANATION = (
     'stored key once; (g) sort/reverse are the builtin operations with the '
     'caller\'s arguments and batched Dict updates keep the caller\'s order.  Agreement of results with CPython '
     'over operation histories is differential by nature and not decided.')
-FLOORS = {'C02.a': 1, 'C02.b': 2, 'C02.c': 2, 'C02.d': 2, 'C02.e': 1, 'C02.f': 4, 'C02.g': 2}
+FLOORS = {'C02.a': 1, 'C02.b': 2, 'C02.c': 2, 'C02.d': 2, 'C02.e': 1, 'C02.f': 4, 'C02.g': 2, 'C02.h': 2}
 FILES = ['pyglove/core/symbolic/list.py', 'pyglove/core/symbolic/dict.py',
          'pyglove/core/symbolic/base.py']
 
@@ -491,6 +491,46 @@ def rule_g(ctx):
          f.loc, '; '.join(problems))
 
 
+GENERATOR_VIEWS = ('sym_values', 'sym_items', 'sym_keys', 'keys', 'values', 'items')
+
+
+def rule_h(ctx):
+  """(1) The symbolic views (sym_values / sym_items / sym_keys and keys / values
+  / items, which return them) are one-shot generators.  A local that holds such a
+  view un-materialised and is then read inside a loop is exhausted after the
+  first round (`l *= 3` appends the items once): a view consumed repeatedly is
+  materialised first (list(...) / tuple(...)).
+  (2) int keys survive the JSON *string* form: same writer/reader agreement as
+  C05.c (the prefix written by to_json_str is decoded unconditionally)."""
+  idx = ctx.index
+  n = 0
+  for cls_fq in (S.LIST, S.DICT):
+    c = idx.cls(cls_fq)
+    for name, f in sorted(c.methods.items()):
+      views = {}
+      for st in A.walk_local(f.node):
+        if isinstance(st, ast.Assign) and isinstance(st.value, ast.Call) and isinstance(st.value.func, ast.Attribute) \
+            and st.value.func.attr in GENERATOR_VIEWS and A.unparse(st.value.func.value) == 'self':
+          for nm in A.assigned_names(st.targets[0]):
+            views[nm] = st
+      for nm, st in views.items():
+        n += 1
+        inside_loop = [x for lp in ast.walk(f.node) if isinstance(lp, (ast.For, ast.While))
+                       for b_ in lp.body for x in ast.walk(b_) if isinstance(x, ast.Name) and x.id == nm and isinstance(x.ctx, ast.Load)]
+        ctx.ob('C02.h', f'{f.fq}#{nm}', not inside_loop,
+               'a one-shot view of the container that is consumed inside a loop is materialised first', f.loc,
+               f'`{A.unparse(st, 60)}` is a generator; it is read inside a loop (line {inside_loop[0].lineno if inside_loop else 0}) '
+               f'and is empty from the second round on')
+  # un-materialised views passed straight into a repeated call are the same hazard: none today
+  ctx.info('C02.h', 'views', f'{n} locals hold an un-materialised view', 'pyglove/core/symbolic/list.py:1')
+  from sa.rules import c05
+  before = len(ctx.obs)
+  c05.rule_c(ctx)
+  for o in ctx.obs[before:]:
+    o.rule = 'C02.h'
+    o.construct = o.construct + '#json-str-int-keys'
+
+
 def run(ctx):
   ctx.consult(*FILES)
   rule_a(ctx)
@@ -501,4 +541,5 @@ def run(ctx):
   rule_e(ctx)
   rule_f(ctx)
   rule_g(ctx)
+  rule_h(ctx)
   ctx.assume('contents, order, return values and slice assignment semantics are not decided (differential)')
